@@ -6,8 +6,10 @@ import U3.Gen.Redirect
 
 Transcribed from `src/urllib3/util/retry.py` (`__init__`, `new`, `from_int`, `get_backoff_time`,
 `sleep*`, `_is_connection_error`, `_is_read_error`, `_is_method_retryable`, `is_retry`,
-`is_exhausted`, `increment`) and from the `except`/retry part of `connectionpool.py::urlopen`
-(lines 811-847, 866-887, 928-960), keeping the order of the tests and Python truthiness.
+`is_exhausted`, `increment`) and from the `except` / retry / redirect part of
+`connectionpool.py::urlopen` (the `from_int` conversion at the top, the `except` clause, the "try
+again" recursion, the pool-level redirect branch, the status-retry branch), keeping the order of the
+tests and Python truthiness.
 
 Conventions
 * a retry counter is `Count`: `none` (Python `None`), `disabled` (Python `False`) or `num n`;
